@@ -331,25 +331,26 @@ PROPS["C20"] = dict(
 
 # ---- coverage added after the mutation rounds (DESIGN section 10), appended to the level texts ----
 _ADDED = {
-    "C12": " Also: every third recorded history hands the sample over ascending with the Sorted flag set.",
-    "C01": " Also: preset tied pools of 20..32 values with every split (mid stage); samples at and just over both exact limits; the numeric value of the normal approximation in the trace direction (exact z^2, Phi by the harness, small lower tails to 2^-29 relative).",
-    "C02": " Also: preset tied pools of 20..32 values with every split; untied pools (38,38)..(50,50) as q-binomials in BigInt; CDF just below every grid point, far outside the range up to MaxFloat64 and the infinities; one tie-vector buffer reused for successive distributions. Lopsided pools (one sample of 1..3 values): a tie group of every size 26..260 (thorough 300) next to a pair, and pools of up to 14 ranks over 40 values; -0 as argument.",
-    "C03": " Also: limit configurations with the ties limit above the no-ties limit; in the trace direction the normal approximation's P is decided numerically (exact z^2 from the integers, Phi evaluated by the harness at the logged z; 2^-29 relative on the lower-tail path, 2^-40 absolute elsewhere). Value maps that write a tied zero alternately as +0 and -0 (and all-zero samples of mixed sign: ErrSamplesEqual).",
-    "C05": " Also: a dense walk over V (eighths to 1000, integers to 10^4) for PDF and CDF; arguments out to MaxFloat64 and the infinities (limits, monotonicity); NormalDist.InvCDF NaN at every distance outside [0,1]. Concurrent evaluation with differing parameters must equal sequential evaluation bit for bit (t and normal CDF/PDF/InvCDF over 12 goroutines).",
-    "C06": " Also: a size walk N = 21..260 (thorough 1000) carrying Pascal rows in the TLA+ state - Binomial(N,1/2), Hyp(N,7,N/2), Hyp(N,N-7,N/3+3) and for even N the central Hyp(N,N/2,N/2); arguments far outside the support up to the infinities. Success probabilities 5e-6, 9e-6, 3e-4 and 1-9e-6 on every N; -0 as argument.",
-    "C07": " Also: 'returns exactly that method' at y = 0, 1, outside and NaN (own-method, DeltaDist, NormalDist); levels just outside [0,1] down to subnormals; Kolmogorov distance of stats.Rand for the built-in continuous distributions (non-integral V). Every third distribution also stretched by 2^400 (finite quantiles beyond 1e100); every pure-jump distribution also realised as a delta-kernel KDE (weighted, and unweighted with repeats).",
-    "C08": " Also: decimal (inexact) parameters; the float-by-float neighbourhood of the symmetry switch (a+1)/(a+b+2); x within a float spacing of 0 and 1 against closed forms; library panics and runtime crashes are verdicts. Concurrent evaluation with differing parameters must equal sequential evaluation bit for bit (Beta, BetaInc, GammaInc, GammaIncComp, Choose over 12 goroutines).",
-    "C09": " Also: vector lengths to 200 (thorough every length to 260, 511..513, 1000..1025), one vectorized function reused on equal-length inputs; in-place Poke events in recorded histories.",
+    "C04": " Also: every case with *StreamStats samples too (same statistics and the same documented errors).",
+    "C12": " Also: every third recorded history hands the sample over ascending with the Sorted flag set. A recorded profile whose CDF has plateaus at 1.05 % and 98.95 % (heavy centre, two far clusters).",
+    "C01": " Also: preset tied pools of 20..32 values with every split (mid stage); samples at and just over both exact limits; the numeric value of the normal approximation in the trace direction (exact z^2, Phi by the harness, small lower tails to 2^-29 relative). Ranks spread over the whole float range (sums overflowing to -Inf and +Inf); the wide limits also as math.MaxInt; two-value tied pools up to 255+255 in BigInt.",
+    "C02": " Also: preset tied pools of 20..32 values with every split; untied pools (38,38)..(50,50) as q-binomials in BigInt; CDF just below every grid point, far outside the range up to MaxFloat64 and the infinities; one tie-vector buffer reused for successive distributions. Lopsided pools (one sample of 1..3 values): a tie group of every size 26..260 (thorough 300) next to a pair, and pools of up to 14 ranks over 40 values; -0 as argument. Two-value tied pools in BigInt (totals beyond 2^63 and beyond 1e80: [30 37], [40 40], [135 135], 255+255) and lopsided untied sizes to (2,300), each evaluated twice (emission order, then reverse).",
+    "C03": " Also: limit configurations with the ties limit above the no-ties limit; in the trace direction the normal approximation's P is decided numerically (exact z^2 from the integers, Phi evaluated by the harness at the logged z; 2^-29 relative on the lower-tail path, 2^-40 absolute elsewhere). Value maps that write a tied zero alternately as +0 and -0 (and all-zero samples of mixed sign: ErrSamplesEqual). The `large` stage (lopsided untied sizes with a raised limit, two-value tied pools), evaluated in both orders.",
+    "C05": " Also: a dense walk over V (eighths to 1000, integers to 10^4) for PDF and CDF; arguments out to MaxFloat64 and the infinities (limits, monotonicity); NormalDist.InvCDF NaN at every distance outside [0,1]. Concurrent evaluation with differing parameters must equal sequential evaluation bit for bit (t and normal CDF/PDF/InvCDF over 12 goroutines). Bit-identical results after the exported variable StdNormal is reassigned; Rand(nil) repeats after re-seeding the global source.",
+    "C06": " Also: a size walk N = 21..260 (thorough 1000) carrying Pascal rows in the TLA+ state - Binomial(N,1/2), Hyp(N,7,N/2), Hyp(N,N-7,N/3+3) and for even N the central Hyp(N,N/2,N/2); arguments far outside the support up to the infinities. Success probabilities 5e-6, 9e-6, 3e-4 and 1-9e-6 on every N; -0 as argument. Strongly skewed walk members Hyp(N,7,5) and Hyp(N,N-7,N-5); a cold start (the first calls of the process are concurrent, with growing sizes) before the exact replay.",
+    "C07": " Also: 'returns exactly that method' at y = 0, 1, outside and NaN (own-method, DeltaDist, NormalDist); levels just outside [0,1] down to subnormals; Kolmogorov distance of stats.Rand for the built-in continuous distributions (non-integral V). Every third distribution also stretched by 2^400 (finite quantiles beyond 1e100); every pure-jump distribution also realised as a delta-kernel KDE (weighted, and unweighted with repeats). A caller's random source whose first uniforms are exactly 0; Kolmogorov distance of draws with a nil source for every built-in.",
+    "C08": " Also: decimal (inexact) parameters; the float-by-float neighbourhood of the symmetry switch (a+1)/(a+b+2); x within a float spacing of 0 and 1 against closed forms; library panics and runtime crashes are verdicts. Concurrent evaluation with differing parameters must equal sequential evaluation bit for bit (Beta, BetaInc, GammaInc, GammaIncComp, Choose over 12 goroutines). Neighbouring floats at the gamma switch-over (240 shapes) and wherever the deviation from an independent evaluation jumps (bisection): monotone to 1e-13; invalid shapes together with x = 0.",
+    "C09": " Also: vector lengths to 200 (thorough every length to 260, 511..513, 1000..1025), one vectorized function reused on equal-length inputs; in-place Poke events in recorded histories. Exact Linspace clauses under inexact end points (never steps back; a one-point range consists of that point).",
     "C10": " Also: tolerance-free order clauses (bracket, exact ties, bounds, monotone in q) under monotone non-affine maps onto values with inexact mantissas; in-place Poke events between queries. Weights of extreme dynamic range (extremes carrying 1e-18 of the total, inexact weights, six profiles): q >= 1 and q <= 0 give the extreme values and agree with Bounds; the sample is a guarded window of a larger buffer.",
-    "C11": " Also: the last sizes of the exact branch (29, 30) in every tier; histories visited in ascending, descending and shuffled order of n; the reported Confidence (18 digits) never below c for proper sub-ranges. For n > 30: levels whose normal band ends within 1e-9..1e-10 of a half-integer, on both sides; SampleCI on guarded windows of a larger buffer.",
-    "C13": " Trace tolerances follow the Welford/Chan error bounds (2^-42 of max|x| for the mean, 2^-36 relative + 2^-42 max|x| * range for the variance), with profiles at a common offset 2^26 times the spread. Every recorded step also carries String() split into name=value items, each recognised name checked against the model.",
-    "C14": " Also: values 1e-10 of a bin below and above every edge, 1e300 and the infinities as value codes of the model; the floats next to both ends of the range probed on every shape; negative values in logarithmic histograms.",
-    "C15": " Also: earlier results re-read after later fits; one LOESS smoother queried in descending / zig-zag order against freshly built ones. One smoother queried on a 400-point grid and then again at earlier points; fits of 257..5000 observations (coefficients of an exact quadratic; residual orthogonality).",
-    "C16": " Also: Linear domains with |Min| / width up to 2^38; the clamp law at 1e-11..1e-15 of the width from both ends; Unmap(Map(x)) of Linear scales to a few ulps of |x|+|Min|+|Max|. QQ with one scale object at both ends, clamped.",
-    "C17": " Also: logarithmic domains of several decades below 1 ending on a power (bases 3 and 10 in the quick tier). Level limits with one end exactly 0.",
-    "C18": " Also: SubgraphRemove requests that remove nodes only; attribute slices handed to Dot as prefixes of one shared table. Remove requests written with repetitions; Dot.Fprint and Dot.Print (standard output captured) equal to Sprint, also on a 1500-node path.",
-    "C19": " Also: the Dom clause itself (child lists invert IDom, each child once) in the replay and on recorded random graphs to 40 nodes. The same flow graph passed as graph.WeightedUnit, as a BiGraph of the harness's own and as WeightedUnit of that; the dominator tree itself as a flow graph from every root.",
-    "C20": " Also: quantile closures shared by all goroutines, weights of extreme magnitude, 3000-node traversals, 40000-element sums, and an entry that evaluates equal values in a refilled buffer and in a fresh slice alternately. Five parameter sweeps (MeanCI of prefixes, TDist 1..300, Binomial 1..200, 120 beta shapes, Welch tests) as the first concurrent calls; printing with attribute callbacks that hand out prefixes of one shared table.",
+    "C11": " Also: the last sizes of the exact branch (29, 30) in every tier; histories visited in ascending, descending and shuffled order of n; the reported Confidence (18 digits) never below c for proper sub-ranges. For n > 30: levels whose normal band ends within 1e-9..1e-10 of a half-integer, on both sides; SampleCI on guarded windows of a larger buffer. Returned confidences fed back as levels (+- one float) for n > 30 too; a lowered (Ambiguous) band reports a Confidence >= c exactly.",
+    "C13": " Trace tolerances follow the Welford/Chan error bounds (2^-42 of max|x| for the mean, 2^-36 relative + 2^-42 max|x| * range for the variance), with profiles at a common offset 2^26 times the spread. Every recorded step also carries String() split into name=value items, each recognised name checked against the model. Accumulators combined with themselves.",
+    "C14": " Also: values 1e-10 of a bin below and above every edge, 1e300 and the infinities as value codes of the model; the floats next to both ends of the range probed on every shape; negative values in logarithmic histograms. Every fourth linear shape also stretched until its larger end is 2^1022.",
+    "C15": " Also: earlier results re-read after later fits; one LOESS smoother queried in descending / zig-zag order against freshly built ones. One smoother queried on a 400-point grid and then again at earlier points; fits of 257..5000 observations (coefficients of an exact quadratic; residual orthogonality). The points outside the query's window overwritten with -1e300, +Inf, NaN.",
+    "C16": " Also: Linear domains with |Min| / width up to 2^38; the clamp law at 1e-11..1e-15 of the width from both ends; Unmap(Map(x)) of Linear scales to a few ulps of |x|+|Min|+|Max|. QQ with one scale object at both ends, clamped. The NewLog error itself is a RangeErr; runs of neighbouring floats around simple multiples of Min never out of order by more than 4 ulps.",
+    "C17": " Also: logarithmic domains of several decades below 1 ending on a power (bases 3 and 10 in the quick tier). Level limits with one end exactly 0. The ticker's probe log stays within the level limits.",
+    "C18": " Also: SubgraphRemove requests that remove nodes only; attribute slices handed to Dot as prefixes of one shared table. Remove requests written with repetitions; Dot.Fprint and Dot.Print (standard output captured) equal to Sprint, also on a 1500-node path. The model's ordinary character also realised as bytes that are not valid UTF-8.",
+    "C19": " Also: the Dom clause itself (child lists invert IDom, each child once) in the replay and on recorded random graphs to 40 nodes. The same flow graph passed as graph.WeightedUnit, as a BiGraph of the harness's own and as WeightedUnit of that; the dominator tree itself as a flow graph from every root. Two-way chains of 14..40 nodes entered at both ends among the recorded graphs.",
+    "C20": " Also: quantile closures shared by all goroutines, weights of extreme magnitude, 3000-node traversals, 40000-element sums, and an entry that evaluates equal values in a refilled buffer and in a fresh slice alternately. Five parameter sweeps (MeanCI of prefixes, TDist 1..300, Binomial 1..200, 120 beta shapes, Welch tests) as the first concurrent calls; printing with attribute callbacks that hand out prefixes of one shared table. The public package variables as a digested argument (every other session under limits (12,30)); a cold-start concurrent phase before anything sequential.",
 }
 for _k, _v in _ADDED.items():
     PROPS[_k]["level_text"] += _v
